@@ -433,14 +433,22 @@ fn expand_tpl(t: &Value, feats: &[String]) -> Option<String> {
     Some(s)
 }
 
-pub fn record_mecab(a: &HashMap<String, String>) -> i32 {
-    let seed: u64 = a.get("seed").and_then(|s| s.parse().ok()).unwrap_or(1);
-    let n: usize = a.get("n").and_then(|s| s.parse().ok()).unwrap_or(100);
-    let mut rng = Rng::new(seed ^ 0xC020);
+pub struct MecabCase {
+    pub d: Value,
+    pub fdef: String,
+    pub rtext: String,
+    pub ltext: String,
+    pub mtext: String,
+    pub factor: i64,
+    pub malformed: bool,
+    pub nr: usize,
+    pub nl: usize,
+}
+
+pub fn gen_mecab_case(rng_in: &mut Rng) -> MecabCase {
+    let mut rng = rng_in.fork();
     let vals = ["a", "b", "*", "名詞", "c"];
-    let mut f = open(a);
-    for _ in 0..n {
-        let t = gen_templates(&mut rng, false);
+    let t = gen_templates(&mut rng, false);
         let table = |rng: &mut Rng, bad: u8| -> Vec<(usize, Vec<String>)> {
             let nids = 1 + rng.below(4);
             let mut tab: Vec<(usize, Vec<String>)> = vec![(0, vec!["BOS/EOS".into(), "*".into(), "*".into()])];
@@ -503,16 +511,29 @@ pub fn record_mecab(a: &HashMap<String, String>) -> i32 {
             mtext.push_str(&format!("{}\t{}/{}\n", w8_text(*w8, k + rng.below(4)), lt, rt));
         }
         mtext.push_str(&format!("{}\tBOS/EOS/{}\n", w8_text(24, 0), lines.first().map_or("x".to_string(), |l| l.2.clone())));
-        let r = catch_unwind(AssertUnwindSafe(|| {
-            let (mut br, mut bl, mut bc) = (vec![], vec![], vec![]);
-            vibrato::mecab::generate_bigram_info(fdef.as_bytes(), rtext.as_bytes(), ltext.as_bytes(), mtext.as_bytes(), factor as f64, &mut br, &mut bl, &mut bc)
-                .map(|_| (br, bl, bc))
-        }));
         let d = json!({"T": {"left": t["left"], "right": t["right"]},
                        "rtab": rtab.iter().map(|(id, fs)| json!({"id": id, "feats": fs})).collect::<Vec<_>>(),
                        "ltab": ltab.iter().map(|(id, fs)| json!({"id": id, "feats": fs})).collect::<Vec<_>>(),
                        "lines": lines.iter().map(|(w8, lt, rt)| json!({"w8": w8, "lt": lt, "rt": rt})).collect::<Vec<_>>(),
                        "factor": factor});
+    let nr = rtab.iter().map(|x| x.0).max().unwrap_or(0) + 1;
+    let nl = ltab.iter().map(|x| x.0).max().unwrap_or(0) + 1;
+    MecabCase { d, fdef, rtext, ltext, mtext, factor, malformed, nr, nl }
+}
+
+pub fn record_mecab(a: &HashMap<String, String>) -> i32 {
+    let seed: u64 = a.get("seed").and_then(|s| s.parse().ok()).unwrap_or(1);
+    let n: usize = a.get("n").and_then(|s| s.parse().ok()).unwrap_or(100);
+    let mut rng = Rng::new(seed ^ 0xC020);
+    let mut f = open(a);
+    for _ in 0..n {
+        let c = gen_mecab_case(&mut rng);
+        let (d, fdef, rtext, ltext, mtext, factor, malformed) = (c.d.clone(), c.fdef, c.rtext, c.ltext, c.mtext, c.factor, c.malformed);
+        let r = catch_unwind(AssertUnwindSafe(|| {
+            let (mut br, mut bl, mut bc) = (vec![], vec![], vec![]);
+            vibrato::mecab::generate_bigram_info(fdef.as_bytes(), rtext.as_bytes(), ltext.as_bytes(), mtext.as_bytes(), factor as f64, &mut br, &mut bl, &mut bc)
+                .map(|_| (br, bl, bc))
+        }));
         let ev = match r {
             Ok(Ok((br, bl, bc))) => {
                 let dict = vibrato::SystemDictionaryBuilder::from_readers_with_bigram_info(
